@@ -48,7 +48,9 @@ def main(strict=False):
             status[gen] = repr(e)[:400]
     instantiate.main()
     out = os.path.join(os.path.dirname(HERE), 'lean', 'Gen', 'regen_status.json')
-    json.dump(dict(status=status, outputs=OUTPUTS), open(out, 'w'), indent=1)
+    tmp = out + '.%d.tmp' % os.getpid()
+    json.dump(dict(status=status, outputs=OUTPUTS), open(tmp, 'w'), indent=1)
+    os.replace(tmp, out)                      # atomic: a concurrent reader never sees a half-written file
     bad = {g: v for g, v in status.items() if v != 'ok'}
     if strict and bad:
         raise RuntimeError('generators failed: %r' % bad)
